@@ -282,7 +282,7 @@ def run(tier):
     nreq = 0
     try:
         for q, doc in docs:
-            ntrials = 12 if quick else 60
+            ntrials = 150 if quick else 2500
             for trial in range(ntrials):
                 # behaviours are assigned lazily by path: first discover paths with an all-sync run
                 log0 = []
@@ -324,7 +324,7 @@ def run(tier):
                 if len(async_labels) <= (3 if quick else 4):
                     orders = list(itertools.permutations(async_labels))
                 else:
-                    orders = [tuple(rng.sample(async_labels, len(async_labels))) for _ in range(4 if quick else 24)]
+                    orders = [tuple(rng.sample(async_labels, len(async_labels))) for _ in range(6 if quick else 40)]
                     orders.append(tuple(async_labels))
                     orders.append(tuple(reversed(async_labels)))
                 for pi in orders:
